@@ -109,7 +109,7 @@ CLAIMS = {
             'The extracted steady-state recurrences of SuperSmoother, RoofingFilter, LaguerreFilter and the smoother inside TrendFlex/ReFlex have the same impulse response as the stated '
             'difference equations for every N in the range (60 samples, rel. tol. 2e-4); alpha/gamma = 2/(N+1); CyberCycle pole radius 1−alpha; Fisher constants; flex normaliser form; '
             'Fisher window extrema rescanned and covering the newest value; state never depends on the raw argument; SuperSmoother/RoofingFilter/LaguerreFilter: every output from the initial state on equals the stated equation from a zero or first-value initial state (K1-history); CyberCycle gain (1−α/2)² and feedback 2(1−α), −(1−α)²; flex normaliser constants 0.04/0.96 and register exactness; LaguerreRSI stages are renamed copies of each other with γ = 2/(N+1); PFE sign, Fisher MA input.',
-            'Trusted: as C09 plus the reference recurrences transcribed from the property text. Not decided: non-linear tails, initial state of the non-linear members, LaguerreRSI lag convention, CyberCycle smoothing layout, PFE ratio.',
+            'Trusted: as C09 plus the reference recurrences transcribed from the property text. TrendFlex/ReFlex smoother and numerator are additionally decided from the initial state through the warm-up; the PFE ratio is decided with symbolic window values. Not decided: non-linear tails (LaguerreRSI CU/CD, Fisher order), LaguerreRSI lag convention, CyberCycle smoothing layout.',
             'DESIGN.md §5 C11', 'E4/E6'),
     'C06': ('other', 'static analysis: loop-nest enumeration with symbolic window values (index coverage, pair counts, weights) + term matching',
             'NET: every pair of window values compared exactly once, pair count = denominator n(n−1)/2, +1/−1/0 for newer >/</= older (n = 2..9 quick, ..24 thorough); '
